@@ -1,6 +1,12 @@
-// overlaygen rewrites exactly two import specs of <repo>/dialer.go ("context" and "time")
-// to the verifshim packages and emits a go build -overlay file. It is regenerated from the
-// working tree on every run; a missing import is a hard error.
+// overlaygen emits a go build -overlay file for the harness build. Two rewrites, both of
+// import specs only, regenerated from the working tree on every run:
+//
+//   - every non-test source file of gobwas/ws (root, wsutil, wsflate) that imports "sync"
+//     gets that import pointed at verifshim/vsync, so that a pool declared inside gobwas/ws
+//     goes through the same controllable seam as the pools of gobwas/pool (the pinned tree
+//     declares none; this is for changed trees);
+//   - with -dialer, the "context" and "time" imports of dialer.go are pointed at the
+//     virtual clock/context packages (C20); a missing import is a hard error.
 package main
 
 import (
@@ -14,62 +20,88 @@ import (
 	"os"
 	"path/filepath"
 	"strconv"
+	"strings"
 )
+
+func die(a ...interface{}) {
+	fmt.Fprintln(os.Stderr, append([]interface{}{"overlaygen:"}, a...)...)
+	os.Exit(2)
+}
 
 func main() {
 	repo := flag.String("repo", "/repo", "repository root")
 	out := flag.String("out", "", "output directory")
+	dialer := flag.Bool("dialer", false, "virtualise context/time in dialer.go")
 	flag.Parse()
 	if *out == "" {
-		fmt.Fprintln(os.Stderr, "overlaygen: -out required")
-		os.Exit(2)
+		die("-out required")
 	}
-	src := filepath.Join(*repo, "dialer.go")
-	fset := token.NewFileSet()
-	f, err := parser.ParseFile(fset, src, nil, parser.ParseComments)
-	if err != nil {
-		fmt.Fprintln(os.Stderr, "overlaygen:", err)
-		os.Exit(2)
-	}
-	want := map[string]string{"context": "verifshim/vctx", "time": "verifshim/vtime"}
-	done := map[string]bool{}
-	for _, im := range f.Imports {
-		p, _ := strconv.Unquote(im.Path.Value)
-		if to, ok := want[p]; ok {
-			if im.Name != nil {
-				fmt.Fprintf(os.Stderr, "overlaygen: import %q is renamed in dialer.go; not supported\n", p)
-				os.Exit(2)
-			}
-			im.Name = ast.NewIdent(p)
-			im.Path.Value = strconv.Quote(to)
-			done[p] = true
-		}
-	}
-	for p := range want {
-		if !done[p] {
-			fmt.Fprintf(os.Stderr, "overlaygen: dialer.go does not import %q\n", p)
-			os.Exit(2)
-		}
-	}
+	os.RemoveAll(*out)
 	if err := os.MkdirAll(*out, 0o755); err != nil {
-		fmt.Fprintln(os.Stderr, "overlaygen:", err)
-		os.Exit(2)
+		die(err)
 	}
-	dst := filepath.Join(*out, "dialer.go")
-	w, err := os.Create(dst)
-	if err != nil {
-		fmt.Fprintln(os.Stderr, "overlaygen:", err)
-		os.Exit(2)
+	replace := map[string]string{}
+	for _, dir := range []string{".", "wsutil", "wsflate"} {
+		ents, err := os.ReadDir(filepath.Join(*repo, dir))
+		if err != nil {
+			die(err)
+		}
+		for _, e := range ents {
+			name := e.Name()
+			if e.IsDir() || !strings.HasSuffix(name, ".go") || strings.HasSuffix(name, "_test.go") {
+				continue
+			}
+			src := filepath.Join(*repo, dir, name)
+			want := map[string]string{"sync": "verifshim/vsync"}
+			must := map[string]bool{}
+			if *dialer && dir == "." && name == "dialer.go" {
+				want["context"], want["time"] = "verifshim/vctx", "verifshim/vtime"
+				must["context"], must["time"] = true, true
+			}
+			fset := token.NewFileSet()
+			f, err := parser.ParseFile(fset, src, nil, parser.ParseComments)
+			if err != nil {
+				die(err)
+			}
+			changed := false
+			for _, im := range f.Imports {
+				p, _ := strconv.Unquote(im.Path.Value)
+				to, ok := want[p]
+				if !ok {
+					continue
+				}
+				if im.Name != nil {
+					if must[p] {
+						die(fmt.Sprintf("import %q is renamed in %s; not supported", p, name))
+					}
+				} else {
+					im.Name = ast.NewIdent(p)
+				}
+				im.Path.Value = strconv.Quote(to)
+				delete(must, p)
+				changed = true
+			}
+			for p := range must {
+				die(fmt.Sprintf("%s does not import %q", name, p))
+			}
+			if !changed {
+				continue
+			}
+			dst := filepath.Join(*out, strings.ReplaceAll(filepath.Join(dir, name), "/", "__"))
+			w, err := os.Create(dst)
+			if err != nil {
+				die(err)
+			}
+			if err := format.Node(w, fset, f); err != nil {
+				die(err)
+			}
+			w.Close()
+			replace[src] = dst
+		}
 	}
-	if err := format.Node(w, fset, f); err != nil {
-		fmt.Fprintln(os.Stderr, "overlaygen:", err)
-		os.Exit(2)
-	}
-	w.Close()
-	ov := map[string]map[string]string{"Replace": {src: dst}}
-	data, _ := json.MarshalIndent(ov, "", " ")
+	data, _ := json.MarshalIndent(map[string]map[string]string{"Replace": replace}, "", " ")
 	if err := os.WriteFile(filepath.Join(*out, "overlay.json"), data, 0o644); err != nil {
-		fmt.Fprintln(os.Stderr, "overlaygen:", err)
-		os.Exit(2)
+		die(err)
 	}
+	fmt.Println(len(replace))
 }
